@@ -23,7 +23,7 @@ LEVEL_TEXT = ('Proof: Coq theorems that a member record encoded in the Director 
               'layouts of one member decode identically, that the reported name only contains safe characters for every '
               'input byte, and that any mismatch between declared and actual sizes is rejected. Tie: layouts regenerated '
               'from the source; differential run + direct oracle with independently computed expected fields.')
-LEVEL_NOTE = 'Trusted: Coq kernel, hand-written model + encoders, layout/table translator, extraction, harness, Python base64/codecs. No axioms.'
+LEVEL_NOTE = 'Trusted: Coq kernel, hand-written model + encoders, layout/table translator, extraction, harness, Python base64/codecs. No axioms. Enc tie: enc_d4 / enc_d5 of the theorems are evaluated by coqc on the run\'s members and compared with the harness encoder.'
 TECHNIQUE = 'Coq round-trip proofs (layout lemma, induction over info entries) + model/implementation correspondence'
 
 SAFE_NAME = set(b'ABCDEFGHIJKLMNOPQRSTUVWXYZabcdefghijklmnopqrstuvwxyz0123456789-_. ')
